@@ -63,7 +63,6 @@ Record Inv (ws : bool) (s : mux) : Prop := mkInv {
   I_next : 1 <= m_next s;
   I_small : m_next s < two64;
   I_iss_c : NoDup (map fst (m_issued s));
-  I_iss_id : NoDup (map snd (m_issued s));
   I_pend_nd : NoDup (map fst (m_pending s));
   I_pend_iss : forall id c, In (id, c) (m_pending s) ->
       In (c, id) (m_issued s) /\ aget (m_out s) c = None /\ (forall f, m_matched s <> Some (c, f));
@@ -92,7 +91,7 @@ Qed.
 Lemma Inv_deliver ws s : Inv ws s -> Inv ws (deliver s).
 Proof.
   intros HI. unfold deliver. destruct (m_matched s) as [[c f]|] eqn:M; [|exact HI].
-  destruct HI as [H1 H2 H3 H5 H6 H7 H8 H9 H10 H11 H12 H14].
+  destruct HI as [H1 H2 H3 H6 H7 H8 H9 H10 H11 H12 H14].
   destruct (aget (m_out s) c) as [o|] eqn:O.
   - constructor; simp_m; try assumption.
     + intros id c' Hin. destruct (H7 id c' Hin) as [A [B C]]. repeat split; try assumption. discriminate.
@@ -117,7 +116,7 @@ Qed.
 
 Lemma Inv_route ws s f : Inv ws s -> m_matched s = None -> Inv ws (route ws s f).
 Proof.
-  intros [H1 H2 H3 H5 H6 H7 H8 H9 H10 H11 H12 H14] M.
+  intros [H1 H2 H3 H6 H7 H8 H9 H10 H11 H12 H14] M.
   unfold route. destruct (ws && negb (f_notify f =? 0)) eqn:E.
   - constructor; simp_m; assumption.
   - destruct (aget (m_pending s) (f_id f)) as [c|] eqn:P; [|constructor; simp_m; assumption].
@@ -135,40 +134,18 @@ Proof.
       * left. rewrite aget_adel. destruct (N.eqb_spec (f_id f) id); [contradiction|exact A'].
 Qed.
 
-Lemma Inv_finish ws s c id o :
-  Inv ws s -> aget (m_issued s) c = Some id -> aget (m_out s) c = None -> (forall f, o <> OGot f) ->
-  Inv ws (finish s c o).
-Proof.
-  intros [H1 H2 H3 H5 H6 H7 H8 H9 H10 H11 H12 H14] Hi Ho Hno.
-  unfold finish. rewrite Hi. pose proof (aget_Some_In _ _ _ Hi) as Iin.
-  constructor; simp_m; try assumption.
-  - apply NoDup_adel. assumption.
-  - intros id' c' Hin. apply In_adel in Hin. destruct Hin as [Hne Hin].
-    destruct (H7 id' c' Hin) as [A [B C]]. repeat split; try assumption.
-    rewrite aget_app, B. cbn [aget]. destruct (N.eqb_spec c c') as [E|E]; [|reflexivity].
-    subst c'. exfalso. apply Hne. exact (assoc_fun _ _ _ _ H3 A Iin).
-  - rewrite map_app. cbn [map fst]. apply NoDup_snoc; [assumption|]. apply aget_None. exact Ho.
-  - intros c' f' Hin. apply in_app_or in Hin. destruct Hin as [Hin|[Hin|[]]]; [exact (H12 c' f' Hin)|].
-    inversion Hin. exfalso. eapply Hno. eauto.
-  - intros c' id' Hin Ho'. rewrite aget_app in Ho'. destruct (aget (m_out s) c') eqn:E; [discriminate|].
-    cbn [aget] in Ho'. destruct (N.eqb_spec c c') as [E1|E1]; [discriminate|].
-    destruct (H14 c' id' Hin E) as [A|A]; [|right; exact A]. left.
-    rewrite aget_adel. destruct (N.eqb_spec id id') as [E2|E2]; [|exact A].
-    subst id'. exfalso. apply E1. exact (assoc_inj _ _ _ _ H5 Iin Hin).
-Qed.
-
-(** a caller that holds no registration ends (refused, or a forwarded notify) *)
+(** a caller without a pending entry ends (refused, a forwarded notify, or a
+    give-up whose entry is no longer its own) *)
 Lemma Inv_out_only ws s c o nx :
-  Inv ws s -> aget (m_issued s) c = None -> aget (m_out s) c = None -> (forall f, o <> OGot f) ->
+  Inv ws s -> (forall id, ~ In (id, c) (m_pending s)) -> aget (m_out s) c = None -> (forall f, o <> OGot f) ->
   1 <= nx -> nx < two64 ->
   Inv ws (mkMux nx (m_pending s) (m_issued s) (m_wire s) (m_matched s) (m_out s ++ [(c, o)]) (m_sub s) (m_dropped s)).
 Proof.
-  intros [H1 H2 H3 H5 H6 H7 H8 H9 H10 H11 H12 H14] Hi Ho Hno Hn1 Hn2.
-  assert (Hnc : ~ In c (map fst (m_issued s))) by (apply aget_None; exact Hi).
+  intros [H1 H2 H3 H6 H7 H8 H9 H10 H11 H12 H14] Hnp Ho Hno Hn1 Hn2.
   constructor; simp_m; try assumption.
   - intros id c' Hin. destruct (H7 id c' Hin) as [A [B C]]. repeat split; try assumption.
     rewrite aget_app, B. cbn [aget]. destruct (N.eqb_spec c c') as [E|E]; [|reflexivity].
-    subst c'. exfalso. apply Hnc. apply (in_map fst) in A. exact A.
+    subst c'. exfalso. exact (Hnp id Hin).
   - rewrite map_app. cbn [map fst]. apply NoDup_snoc; [assumption|]. apply aget_None. exact Ho.
   - intros c' f' Hin. apply in_app_or in Hin. destruct Hin as [Hin|[Hin|[]]]; [exact (H12 c' f' Hin)|].
     inversion Hin. exfalso. eapply Hno. eauto.
@@ -176,19 +153,56 @@ Proof.
     exact (H14 c' id' Hin E).
 Qed.
 
-(** an accepted registration of caller c under the id [id] (counter-issued or caller-supplied) *)
+Lemma unissued_not_pending ws s c : Inv ws s -> aget (m_issued s) c = None -> forall id, ~ In (id, c) (m_pending s).
+Proof.
+  intros HI Hi id Hin. destruct (I_pend_iss _ _ HI _ _ Hin) as [A _].
+  apply aget_None in Hi. apply Hi. apply (in_map fst) in A. exact A.
+Qed.
+
+Lemma Inv_finish ws s c id o :
+  Inv ws s -> aget (m_issued s) c = Some id -> aget (m_out s) c = None -> (forall f, o <> OGot f) ->
+  Inv ws (finish s c o).
+Proof.
+  intros HI Hi Ho Hno. unfold finish. rewrite Hi. pose proof (aget_Some_In _ _ _ Hi) as Iin.
+  assert (Hown : forall id', In (id', c) (m_pending s) -> aget (m_pending s) id = Some c).
+  { intros id' Hin. destruct (I_pend_iss _ _ HI _ _ Hin) as [A _].
+    assert (id' = id) by exact (assoc_fun _ _ _ _ (I_iss_c _ _ HI) A Iin). subst id'.
+    exact (In_aget _ _ _ (I_pend_nd _ _ HI) Hin). }
+  destruct (aget (m_pending s) id) as [c0|] eqn:P; [destruct (N.eqb_spec c0 c) as [E0|E0]|].
+  - subst c0. destruct HI as [H1 H2 H3 H6 H7 H8 H9 H10 H11 H12 H14].
+    constructor; simp_m; try assumption.
+    + apply NoDup_adel. assumption.
+    + intros id' c' Hin. apply In_adel in Hin. destruct Hin as [Hne Hin].
+      destruct (H7 id' c' Hin) as [A [B C]]. repeat split; try assumption.
+      rewrite aget_app, B. cbn [aget]. destruct (N.eqb_spec c c') as [E|E]; [|reflexivity].
+      subst c'. exfalso. apply Hne. exact (assoc_fun _ _ _ _ H3 A Iin).
+    + rewrite map_app. cbn [map fst]. apply NoDup_snoc; [assumption|]. apply aget_None. exact Ho.
+    + intros c' f' Hin. apply in_app_or in Hin. destruct Hin as [Hin|[Hin|[]]]; [exact (H12 c' f' Hin)|].
+      inversion Hin. exfalso. eapply Hno. eauto.
+    + intros c' id' Hin Ho'. rewrite aget_app in Ho'. destruct (aget (m_out s) c') eqn:E; [discriminate|].
+      cbn [aget] in Ho'. destruct (N.eqb_spec c c') as [E1|E1]; [discriminate|].
+      destruct (H14 c' id' Hin E) as [A|A]; [|right; exact A]. left.
+      rewrite aget_adel. destruct (N.eqb_spec id id') as [E2|E2]; [|exact A].
+      subst id'. exfalso. apply E1. congruence.
+  - apply (Inv_out_only ws s c o (m_next s) HI); try assumption; try exact (I_next _ _ HI); try exact (I_small _ _ HI).
+    intros id' Hin. specialize (Hown id' Hin). congruence.
+  - apply (Inv_out_only ws s c o (m_next s) HI); try assumption; try exact (I_next _ _ HI); try exact (I_small _ _ HI).
+    intros id' Hin. specialize (Hown id' Hin). congruence.
+Qed.
+
+(** an accepted registration of caller c under the id [id] (counter-issued or
+    caller-supplied; the id may have been used before, it only must not be pending) *)
 Lemma Inv_register ws s c id nx :
   Inv ws s -> aget (m_issued s) c = None -> aget (m_out s) c = None ->
-  aget (m_pending s) id = None -> ~ In id (map snd (m_issued s)) -> 1 <= nx -> nx < two64 ->
+  aget (m_pending s) id = None -> 1 <= nx -> nx < two64 ->
   Inv ws (mkMux nx (aset (m_pending s) id c)
             (m_issued s ++ [(c, id)]) (m_wire s) (m_matched s) (m_out s) (m_sub s) (m_dropped s)).
 Proof.
-  intros [H1 H2 H3 H5 H6 H7 H8 H9 H10 H11 H12 H14] Hc Ho Pn Hfresh Hn1 Hn2.
+  intros [H1 H2 H3 H6 H7 H8 H9 H10 H11 H12 H14] Hc Ho Pn Hn1 Hn2.
   rewrite (aset_fresh _ _ _ Pn).
   assert (Hnc : ~ In c (map fst (m_issued s))) by (apply aget_None; exact Hc).
   constructor; simp_m; try assumption.
   - rewrite map_app. cbn [map fst]. apply NoDup_snoc; assumption.
-  - rewrite map_app. cbn [map snd]. apply NoDup_snoc; assumption.
   - rewrite map_app. cbn [map fst]. apply NoDup_snoc; [assumption|]. apply aget_None. exact Pn.
   - intros id' c' Hin. apply in_app_or in Hin. destruct Hin as [Hin|[Hin|[]]].
     + destruct (H7 id' c' Hin) as [A [B C]]. repeat split; try assumption. apply in_or_app. left. exact A.
@@ -209,7 +223,7 @@ Lemma Inv_write ws s c id :
   Inv ws (mkMux (m_next s) (m_pending s) (m_issued s) (m_wire s ++ [(c, id)]) (m_matched s)
                 (m_out s) (m_sub s) (m_dropped s)).
 Proof.
-  intros [H1 H2 H3 H5 H6 H7 H8 H9 H10 H11 H12 H14] Hi Hw.
+  intros [H1 H2 H3 H6 H7 H8 H9 H10 H11 H12 H14] Hi Hw.
   constructor; simp_m; try assumption.
   - intros c' id' Hin. apply in_app_or in Hin. destruct Hin as [Hin|[Hin|[]]]; [exact (H8 c' id' Hin)|].
     inversion Hin; subst c' id'. apply aget_Some_In. exact Hi.
@@ -224,25 +238,17 @@ Proof.
   apply negb_true_iff, isSome_false in E1. apply negb_true_iff, isSome_false in E2. tauto.
 Qed.
 
-Lemma fresh_reg_id s id :
-  isSome (aget (m_pending s) id) || negb (memN id (map snd (m_issued s))) = true ->
-  aget (m_pending s) id = None -> ~ In id (map snd (m_issued s)).
-Proof.
-  intros F P. rewrite P in F. cbn [isSome orb] in F. apply negb_true_iff in F. apply memN_false. exact F.
-Qed.
-
 Lemma Inv_step ws s st :
-  Inv ws s -> m_next s + 1 < two64 -> fresh_reg s st = true -> Inv ws (mstep ws s st).
+  Inv ws s -> m_next s + 1 < two64 -> Inv ws (mstep ws s st).
 Proof.
-  intros HI Hb Hf. unfold mstep. destruct (enabled s st) eqn:En; cbn [negb]; [|exact HI].
+  intros HI Hb. unfold mstep. destruct (enabled s st) eqn:En; cbn [negb]; [|exact HI].
   pose proof (I_next _ _ HI) as Hn1.
   assert (Hmod : (m_next s + 1) mod two64 = m_next s + 1) by (apply N.mod_small; exact Hb).
-  destruct st as [c|c|f|a| |c|c|c id|c]; cbn [enabled] in En; cbn [fresh_reg] in Hf.
+  destruct st as [c|c|f|a| |c|c|c id|c]; cbn [enabled] in En.
   - apply enabled_new in En. destruct En as [Ei Eo]. rewrite Hmod.
     destruct (aget (m_pending s) (m_next s)) as [o|] eqn:P; cbn [isSome].
-    + apply Inv_out_only; try assumption; try lia. intros f; discriminate.
+    + apply Inv_out_only; try assumption; try lia; [eapply unissued_not_pending; eassumption|intros f; discriminate].
     + apply Inv_register; try assumption; try lia.
-      cbn [isSome orb] in Hf. apply negb_true_iff in Hf. apply memN_false in Hf. exact Hf.
   - destruct (aget (m_issued s) c) as [id|] eqn:Hi; [|exact HI].
     apply andb_true_iff in En. destruct En as [En _]. apply andb_true_iff in En. destruct En as [_ En].
     apply negb_true_iff, isSome_false in En. apply Inv_write; assumption.
@@ -261,11 +267,10 @@ Proof.
     eapply Inv_finish; try eassumption. intros f; discriminate.
   - apply enabled_new in En. destruct En as [Ei Eo]. pose proof (I_small _ _ HI).
     destruct (aget (m_pending s) id) as [o|] eqn:P; cbn [isSome].
-    + apply Inv_out_only; try assumption. intros f; discriminate.
+    + apply Inv_out_only; try assumption; [eapply unissued_not_pending; eassumption|intros f; discriminate].
     + apply Inv_register; try assumption.
-      cbn [isSome orb] in Hf. apply negb_true_iff in Hf. apply memN_false in Hf. exact Hf.
   - apply enabled_new in En. destruct En as [Ei Eo]. pose proof (I_small _ _ HI).
-    apply Inv_out_only; try assumption. intros f; discriminate.
+    apply Inv_out_only; try assumption; [eapply unissued_not_pending; eassumption|intros f; discriminate].
 Qed.
 
 Lemma deliver_next s : m_next (deliver s) = m_next s.
@@ -294,21 +299,19 @@ Proof.
   - simp_m. lia.
 Qed.
 
-(** every state reachable by fewer than 2^64 - 2 steps in which no accepted
-    registration reuses an id satisfies the invariant *)
+(** every state reachable by fewer than 2^64 - 2 steps satisfies the invariant *)
 Lemma Inv_run ws l : forall s,
-  Inv ws s -> m_next s + N.of_nat (length l) < two64 -> all_fresh ws s l = true -> Inv ws (run ws s l).
+  Inv ws s -> m_next s + N.of_nat (length l) < two64 -> Inv ws (run ws s l).
 Proof.
-  induction l as [|st l IH]; intros s HI Hb Hf; cbn [run fold_left]; [exact HI|].
-  cbn [all_fresh] in Hf. apply andb_true_iff in Hf. destruct Hf as [Hf1 Hf2]. cbn [length] in Hb.
+  induction l as [|st l IH]; intros s HI Hb; cbn [run fold_left]; [exact HI|].
+  cbn [length] in Hb.
   apply IH.
-  - apply Inv_step; [exact HI|lia|exact Hf1].
+  - apply Inv_step; [exact HI|lia].
   - pose proof (next_step ws s st). lia.
-  - exact Hf2.
 Qed.
 
-Lemma Inv_reach ws l : N.of_nat (length l) + 2 < two64 -> all_fresh ws mux0 l = true -> Inv ws (run ws mux0 l).
-Proof. intros Hb Hf. apply Inv_run; [apply Inv0| |exact Hf]. cbn [mux0 m_next]. lia. Qed.
+Lemma Inv_reach ws l : N.of_nat (length l) + 2 < two64 -> Inv ws (run ws mux0 l).
+Proof. intros Hb. apply Inv_run; [apply Inv0|]. cbn [mux0 m_next]. lia. Qed.
 
 (** ** without caller-supplied ids every registration is fresh *)
 
@@ -364,7 +367,7 @@ Proof.
   cbn [existsb] in Hnf. apply orb_false_iff in Hnf. destruct Hnf as [Hnf1 Hnf2]. cbn [length] in Hb.
   pose proof (Low_fresh s st HL Hnf1) as Hf. rewrite Hf. cbn [andb].
   apply IH.
-  - apply Inv_step; [exact HI|lia|exact Hf].
+  - apply Inv_step; [exact HI|lia].
   - apply Low_step; [exact HL|lia|exact Hnf1].
   - pose proof (next_step ws s st). lia.
   - exact Hnf2.
@@ -398,10 +401,13 @@ Proof.
   - apply IH; [|exact ND']. intros c' id' H. apply Hsub. right. exact H.
 Qed.
 
-Lemma ids_distinct_inv ws s : Inv ws s -> NoDup (map snd (m_issued s)) /\ NoDup (map snd (m_wire s)).
+(** no id has been registered twice *)
+Definition Uniq (s : mux) : Prop := NoDup (map snd (m_issued s)).
+
+Lemma ids_distinct_inv ws s : Inv ws s -> Uniq s -> NoDup (map snd (m_issued s)) /\ NoDup (map snd (m_wire s)).
 Proof.
-  intros HI. split; [exact (I_iss_id _ _ HI)|].
-  eapply sub_nodup_snd; [exact (I_iss_id _ _ HI)|exact (I_wire _ _ HI)|exact (I_wire_nd _ _ HI)].
+  intros HI HU. split; [exact HU|].
+  eapply sub_nodup_snd; [exact HU|exact (I_wire _ _ HI)|exact (I_wire_nd _ _ HI)].
 Qed.
 
 Lemma pending_inj_inv ws s id1 id2 c :
@@ -615,14 +621,18 @@ Proof. intros H. unfold tag_of. lia. Qed.
 (** the reader takes a frame that the server sent as item [a] *)
 Lemma Hist_srv ws n h s a f :
   Inv ws s -> Hist ws h s -> n < unknown_k -> step_ok ws n (Srv a) = true -> frame_of s a = Some f ->
+  srv_own s (Srv a) = true ->
   Hist ws (h ++ [Srv a]) (route ws (deliver s) f).
 Proof.
-  intros HI HH Hn Hok Hf.
+  intros HI HH Hn Hok Hf Hso.
+  assert (Hsod : srv_own (deliver s) (Srv a) = true).
+  { destruct a; cbn [srv_own] in *; rewrite ?deliver_wire, ?deliver_pending; exact Hso. }
+  clear Hso. revert Hsod.
   pose proof (Inv_deliver ws s HI) as HId. pose proof (Hist_deliver ws h s HH) as HHd.
   pose proof (deliver_matched s) as Md.
   assert (Hfd : frame_of (deliver s) a = Some f).
   { destruct a; cbn [frame_of] in *; rewrite ?deliver_wire, ?deliver_issued; exact Hf. }
-  revert HId HHd Md Hfd. generalize (deliver s). clear s HI HH Hf. intros s HI [T1 T2 T3 T4 T6 T7 T8 T5] M Hf.
+  revert HId HHd Md Hfd. generalize (deliver s). clear s HI HH Hf. intros s HI [T1 T2 T3 T4 T6 T7 T8 T5] M Hf Hso.
   unfold step_ok in Hok. cbn [is_raw negb andb] in Hok. apply andb_true_iff in Hok. destruct Hok as [Hok _].
   apply andb_true_iff in Hok. destruct Hok as [Hc Hw].
   unfold unknown_k in Hn.
@@ -630,11 +640,10 @@ Proof.
   - (* reply *)
     destruct (aget (m_wire s) k) as [id|] eqn:W; [|discriminate]. inversion Hf; subst f; clear Hf.
     cbn [step_caller_ok] in Hc. apply N.ltb_lt in Hc.
-    apply aget_Some_In in W. apply (I_wire _ _ HI) in W.
+    pose proof W as W0. apply aget_Some_In in W. apply (I_wire _ _ HI) in W.
     unfold route. cbn [f_notify f_id]. rewrite N.eqb_refl. cbn [negb]. rewrite andb_false_r.
     destruct (aget (m_pending s) id) as [c|] eqn:P.
-    + apply aget_Some_In in P. destruct (I_pend_iss _ _ HI _ _ P) as [A _].
-      assert (c = k) by exact (assoc_inj _ _ _ _ (I_iss_id _ _ HI) A W). subst c.
+    + assert (c = k) by (cbn [srv_own] in Hso; rewrite W0, P in Hso; apply N.eqb_eq; exact Hso). subst c.
       constructor; simp_m.
       * intros c f [H|H].
         -- inversion H; subst c f. cbn [f_tag]. split; [apply tag_mod; lia|].
